@@ -3,7 +3,7 @@
 From Coq Require Import List String Ascii Bool Arith Lia.
 Import ListNotations.
 From Casbin Require Import Base.
-Open Scope string_scope.
+Local Open Scope string_scope.
 
 (* ---------- join / split ---------- *)
 Lemma split_comma_app f rest :
@@ -99,6 +99,7 @@ Qed.
 End Maps.
 
 (* ---------- set_nth ---------- *)
+Local Close Scope string_scope.
 Lemma set_nth_length {A} i (x : A) l : List.length (set_nth i x l) = List.length l.
 Proof. revert i. induction l as [|h t IH]; intros [|i]; cbn [set_nth List.length]; auto. Qed.
 
@@ -109,7 +110,7 @@ Proof.
   - destruct i, j; cbn; try reflexivity. destruct (Nat.eqb i j); reflexivity.
   - destruct i as [|i], j as [|j]; cbn [set_nth nth_error Nat.eqb List.length]; try reflexivity.
     rewrite IH. destruct (Nat.eqb i j); [|reflexivity].
-    change (S i <? S (List.length t)) with (i <? List.length t). reflexivity.
+    change (Nat.ltb (S i) (S (List.length t))) with (Nat.ltb i (List.length t)). reflexivity.
 Qed.
 
 Lemma set_nth_same {A} i (x : A) l : nth_error l i = Some x -> set_nth i x l = l.
